@@ -237,6 +237,7 @@ structure ModD where
   slots : Nat                   -- `TimerSlot`s in the driver's queue
   kept : List MsgD
   afn : Option AfnD := none     -- the module is an `AsyncFn` (its task has index `tasks.length`)
+  askedParent : Bool := false   -- the module called `current().parent()` successfully at least once
   deriving Repr, DecidableEq
 
 structure LinkD where
@@ -290,6 +291,9 @@ structure Desc where
   /-- a variant of the code in which the task spawned by `AsyncFn::failable` / `io` captures `current()`,
       a strong `Arc<ModuleContext>` (seeded defect) -/
   taskCtx : Bool := false
+  /-- a variant of the code in which `ModuleContext::parent()` caches the resolved parent as a strong
+      `ModuleRef` in the child (seeded defect); in the current code a lookup leaves no handle behind -/
+  parentCache : Bool := false
   deriving Repr
 
 def fld (s t : NId) : Edge NId := ⟨s, t, .field⟩
@@ -353,7 +357,10 @@ def afnEdges (ctxBack : Bool) (m t : Nat) : Option AfnD → List (Edge NId)
 def modEdges (d : Desc) (m : Nat) (md : ModD) : List (Edge NId) :=
   modRefEdges .tree m ++
   (match md.parent with
-   | some p => if p < m then modRefEdges (.ctx p) m else []
+   | some p =>
+     if p < m then
+       modRefEdges (.ctx p) m ++ (if d.parentCache && md.askedParent then modRefEdges (.ctx m) p else [])
+     else []
    | none => []) ++
   [fld (.proc m) (.state m)] ++
   (List.range md.nPE).map (fun i => fld (.proc m) (.pe m i)) ++
